@@ -15,6 +15,8 @@ Spec language (JSON lists):
   ["custom", "<bytes expr>", x]  ["nohash", x]  ["identity", x]  ["taskgen", fname]
   ["rawarray", descr, shape, "<hex of the C-order buffer>"]   ndarray of any (structured) dtype; descr = dtype string or
                                                   [[name, descr(, subshape)], ..] (layout chosen by the variant)
+  ["perm", arrayspec, axes]                       the VIEW base.transpose(axes) of the C-contiguous array written by arrayspec
+                                                  (array / rawarray): its memory image is the base's, its values are permuted
   ["rettuple", base, i, n]                        i-th tasklet of return_tuple(n) applied to base
   ["iter", base, i, n]                            i-th element of iteratetask(base, n)
   ["sub", cls, inner]                             instance of a SUBCLASS of inner's type holding inner's content (built in the order
@@ -331,6 +333,13 @@ def realise(spec, rng, shared):
         _, descr, shape, hx = spec
         a = np.frombuffer(bytes.fromhex(hx), dtype=np.dtype(np_descr(descr))).reshape(shape).copy()
         return relayout(a, rng)
+    if k == 'perm':
+        inner = spec[1]
+        if inner[0] == 'array':
+            a = np.array(inner[3], dtype=inner[1]).reshape(inner[2])
+        else:
+            a = np.frombuffer(bytes.fromhex(inner[3]), dtype=np.dtype(np_descr(inner[1]))).reshape(inner[2]).copy()
+        return np.ascontiguousarray(a).transpose(spec[2])
     if k == 'objarray':
         _, shape, elems = spec
         a = np.empty(len(elems), dtype=object)
